@@ -344,7 +344,9 @@ Decls ==
 (*   multi  several declarations (declaration sorting, blank lines)        *)
 (*   group  several statements with blank-line groups                      *)
 (***************************************************************************)
-Blank(s) == [a |-> [s.a EXCEPT !.p_blank = TRUE], t |-> BL \o s.t]
+\* an empty line in front of s - after its leading comments, if any (every template starts with its "lead" gap;
+\* an empty line in front of a leading comment belongs to the comment, not to the node)
+Blank(s) == [a |-> [s.a EXCEPT !.p_blank = TRUE], t |-> <<s.t[1]>> \o BL \o Tail(s.t)]
 
 UnitDocs ==
   {[fam |-> "decl", focus |-> d.a.k, ds |-> <<d>>] : d \in Decls}
